@@ -221,7 +221,7 @@ def run(ctx):
     required = ["resolve_order_independent", "store_is_fold", "merge_deterministic", "before_strict_total",
                 "insert_sorted_perm", "deactivated_monotone", "conflict_resolved_by_covering_update", "stats_order_independent", "stats_are_what_the_states_imply",
                 "observations_order_independent", "restart_changes_nothing", "iterators_agree_with_counters",
-                "resolve_answers_satisfy_filters", "deactivation_is_permanent", "covering_update_resolves_any_order",
+                "resolve_answers_satisfy_filters", "resolve_not_found_means_no_version_matches", "deactivation_is_permanent", "covering_update_resolves_any_order",
                 "history_is_the_sorted_event_list", "shelves_refine_chain", "shelf_resolve_eq_resolve", "shelf_level_order_independent",
                 "fact_map_built_fields_sorted", "fact_writer_has_no_map_range", "fact_conflicted_flag_read_unconditionally",
                 "fact_before_order", "fact_equal_by_ref", "fact_event_fields_persisted", "fact_metadata_fields_persisted",
@@ -408,10 +408,14 @@ def run(ctx):
     ctx.cov["evaluations"] = len(impl)
     ctx.cov["distinct_nontrivial"] = len(distinct)
     ctx.cov["traces_validated_against_impl"] = len(impl) - len(bad)
-    ctx.cov["rule"] = ("event sets of 1-9 did:nuts events (creation, chains, 2/3-way forks, fork resolution, deactivation, clock/time ties, "
-                       "1-2 DIDs, shared service ids with different content), all permutations for <=5 events (capped) else random permutations, "
-                       "duplicates inserted anywhere; each sequence applied to a fresh real store (bbolt), observed through Resolve(nil / allowDeactivated / "
-                       "every event time and time-1 / every payload hash / every source tx), ConflictedCount, DocumentCount, Conflicted(), then again after "
-                       "re-opening the store. distinct_nontrivial = distinct (set, arrival) with >=2 events")
+    ctx.cov["rule"] = ("event sets of 1-13 did:nuts events for 1-3 DIDs (creation, chains, 2/3-way forks, fork resolution, deactivation, second roots, "
+                       "clock/time ties incl. ties below the second, republished identical documents, prevs naming foreign / unseen transactions, "
+                       "shared service ids with different content), all permutations for <=5 events (capped) else random permutations, duplicates inserted "
+                       "anywhere, Adds with an injected storage failure (first write tx, between the two, second rolled back, k-th shelf operation) followed "
+                       "by re-delivery, restarts mid-sequence; each sequence applied to a fresh real store (bbolt), observed through Resolve(nil / {} / "
+                       "allowDeactivated / every event time and time-1ns / every payload hash / every source tx / random hash x time x source-tx x "
+                       "allow-deactivated combinations / unknown values), ConflictedCount, DocumentCount, Conflicted() entries, Iterate() order + entries, "
+                       "Finder.Find(IsActive), HistorySinceVersion(0..n+1), unknown DID; then the cache-dependent part again after re-opening the store. "
+                       "distinct_nontrivial = distinct (set, arrival, failure codes) with >=2 events")
     ctx.cov["input_distribution"] = {"set_size_histogram": dict(sorted(sizes.items())), "features": dict(feats), "event_sets": len(by_set)}
     ctx.cov["samples"] = [json.loads(ops[0])["arrival"] if ops and ops[0] else [], impl[0][:400] if impl else ""]
